@@ -166,16 +166,36 @@ SPEC += [
      }},
 ]
 
+# tables.py: the dispatch tests of template building (the function itself works on iterators and mutable
+# descriptor objects: notes/Tie.md, "Not done")
+_spec_of('tables')['fragments'] = {
+    'build_is_sequence': {'func': '_descriptors_from_ids_iter', 'expr': 'Compare', 'of': (0, 3), 'params': {'id_': 'int'}},
+    'build_is_operator': {'func': '_descriptors_from_ids_iter', 'expr': 'Compare', 'of': (1, 3), 'params': {'id_': 'int'}},
+    'build_is_replication': {'func': '_descriptors_from_ids_iter', 'expr': 'Compare', 'of': (2, 3), 'params': {'id_': 'int'}},
+    'replication_is_delayed': {'class': 'TableR', 'method': 'lookup', 'expr': 'Compare', 'params': {'id_': 'int'}},
+}
+
 _spec_of('dataquery')['small_methods'] = {
     'NodePath': {'attrs': {'path_string': 'str', 'subset_slice': 'opt[intorslice]', 'components': 'list[PathComponent]'},
                  'methods': {'slice_to_str': {'params': {'slc': 'opt[intorslice]'}},
                              '__str__': {}}},
 }
 
+_spec_of('mdquery')['small_records'] = {
+    'Parameter': {'doc': '`SectionParameter`: its name and its value (opaque)', 'fields': {'name': 'str', 'value': 'obj'}},
+    'Section': {'doc': '`BufrSection`: `get_metadata(\'index\')` and the parameters in the order `__iter__` yields them',
+                'fields': {'index': 'int', 'params': 'list[Parameter]'}, 'iter': 'params',
+                'calls': {"get_metadata('index')": 'index'}},
+    'Message': {'doc': '`BufrMessage`: the list `sections`', 'fields': {'sections': 'list[Section]'}},
+}
 _spec_of('mdquery').setdefault('classes', {}).update({
     'MetadataExprParser': {'attrs': {}, 'methods': {
         'parse': {'params': {'metadata_expr': 'str'}, 'compiler': 'small',
                   'locals': {'section_index': ['str', 'opt[int]']}}}},
+    'MetadataQuerent': {'attrs': {}, 'methods': {
+        'query': {'params': {'bufr_message': 'Message', 'metadata_expr': 'str'}, 'compiler': 'small',
+                  'calls': {'self.metadata_expr_parser.parse': {
+                      'lean': 'MetadataExprParser.parse {}', 'params': ['str'], 'returns': 'tuple[opt[int],str]', 'raises': True}}}}},
 })
 
 LEAN_KEYWORDS = set('''at from in do then else if fun end open instance structure where with match let have show by
@@ -2874,6 +2894,9 @@ class ModuleGen(object):
             self.items.append({'kind': 'function', 'name': fname, 'lines': [a, b], 'may_raise': raises})
         NAMED_KIND.clear()
         render_named(self, spec, func_texts)      # namedtuples and stateful classes (block "stateful classes" below)
+        if spec.get('small_records'):             # w5-smallsrc: abstract records of objects that are only read
+            from harness import py2lean_small
+            py2lean_small.render_small_records(self, spec, func_texts)
         render_flow(self, spec, func_texts)       # records, functions in flow style (block "flow" below)
         for cname, cs in spec.get('classes', {}).items():
             if cs.get('stateful'):
